@@ -1,9 +1,12 @@
 package checks
 
 import (
+	"errors"
 	"fmt"
+	"io"
 	"regexp"
 	"strings"
+	"testing/iotest"
 	"time"
 
 	"github.com/antlr4-go/antlr/v4"
@@ -20,7 +23,7 @@ func init() {
 			Property: "C05",
 			Rule: "I1: every byte string of length <=4 (quick) / 5 (thorough) over a 20-symbol alphabet reaching every lexer mode, raw and spliced into the body, the header and between the nodes of a valid wrapper; " +
 				"I2: every single (quick) / pair (thorough, reduced vocabulary) of token-level mutations {delete, duplicate, transpose, replace by each token of a vocabulary} at every token position of a grammar-coverage corpus of valid scripts (one per alternative of the parser rules and per lexer mode), plus truncation at every byte; " +
-				"I3: every 2-way split of every corpus script across two readers at every byte offset, and every composition of its whole nodes into readers, plus empty / invalid readers before and after valid ones; I5: every indentation string over {space, tab} of length <=10 (quick) / 13 (thorough) before a content line, a comment line and a blank line in five contexts (node body, option body, after a 4-space and after a tab-indented line, if body); I4: every seed over {a z 0 9 A - space é} up to length 3, the empty seed and overflow-length seeds; " +
+				"I3: every 2-way split of every corpus script across two readers at every byte offset, and every composition of its whole nodes into readers, plus empty / invalid readers before and after valid ones; I5: every indentation string over {space, tab} of length <=10 (quick) / 13 (thorough) before a content line, a comment line and a blank line in five contexts (node body, option body, after a 4-space and after a tab-indented line, if body); I6: every corpus script delivered one byte at a time / by half reads / with the last bytes together with EOF / with empty reads in between (same answer as from a plain reader), and cut by a read error after every number of bytes, alone and as the second of two readers (an error, never a runner); I4: every seed over {a z 0 9 A - space é} up to length 3, the empty seed and overflow-length seeds; " +
 				"oracle: independent validity (the generated lexer and parser run by the harness with its own error listeners: valid iff no lexer error, no parser error, no panic and the whole token stream is consumed; a multi-reader input is valid iff every reader is; a non-blank non-comment line whose indentation mixes tabs and spaces is invalid whatever the recogniser says; a seed is valid iff it is over [0-9a-z]*): " +
 				"no panic; valid => runner returned (and a first Next does not panic), invalid => error; a case is one (input, split, seed); non-trivial = input differs from a corpus script",
 			StatesMean:  "distinct (input, reader split, seed) cases; transitions = NewDialogueRunner calls",
@@ -87,6 +90,23 @@ func mixedIndent(input string) (hard, soft bool) {
 		}
 	}
 	return
+}
+
+// stutterReader answers every other Read with (0, nil) and otherwise delivers at most 3 bytes.
+type stutterReader struct {
+	r io.Reader
+	n int
+}
+
+func (z *stutterReader) Read(p []byte) (int, error) {
+	z.n++
+	if z.n%2 == 1 {
+		return 0, nil
+	}
+	if len(p) > 3 {
+		p = p[:3]
+	}
+	return z.r.Read(p)
 }
 
 var seedOK = regexp.MustCompile(`^[0-9a-z]*$`)
@@ -316,6 +336,68 @@ func runC05(ctx *report.Ctx) {
 			input = "title: A\n---\n<<if true>>\n" + line + "\n<<endif>>\n===\n"
 		}
 		c05Case(ctx, c, "I5-indentation", []string{input}, "abc", n > 0)
+	})
+
+	// I6: how the bytes arrive. A reader may deliver its bytes in any chunks (one byte at a time, half of what is
+	// asked, the last bytes together with io.EOF, empty reads in between) - the answer must be that of the plain
+	// reader; and a reader may fail after any number of bytes - then the input is not a script: an error, never a
+	// runner built from the part that was read, never a panic. One reader of two may misbehave as well.
+	part(ctx, "I6-reader-behaviour", -1, func(c *explore.Chooser) {
+		i := c.Choose(len(corpus), "script")
+		kind := c.Choose(6, "delivery")
+		if !c.Mine() {
+			return
+		}
+		src := corpus[i]
+		cut := 0
+		if kind == 4 || kind == 5 {
+			cut = c.Choose(len(src)+1, "fail-after")
+		}
+		mk := func() io.Reader {
+			switch kind {
+			case 0:
+				return iotest.OneByteReader(strings.NewReader(src))
+			case 1:
+				return iotest.HalfReader(strings.NewReader(src))
+			case 2:
+				return iotest.DataErrReader(strings.NewReader(src))
+			case 3:
+				return &stutterReader{r: strings.NewReader(src)}
+			}
+			return io.MultiReader(strings.NewReader(src[:cut]), iotest.ErrReader(errors.New("read failed")))
+		}
+		readers := []io.Reader{mk()}
+		desc := fmt.Sprintf("script %d delivered %s", i, []string{"one byte at a time", "by half reads", "with the last bytes together with EOF", "with empty reads in between",
+			fmt.Sprintf("until a read error after %d bytes", cut), fmt.Sprintf("as second reader after a valid one, until a read error after %d bytes", cut)}[kind])
+		if kind == 5 {
+			readers = []io.Reader{strings.NewReader("title: First\n---\nx\n===\n"), mk()}
+		}
+		ctx.Current("I6-reader-behaviour: " + desc)
+		r, err, pan := yc.NewRealFrom(readers, "abc", nil)
+		ctx.AddEvals(1, 1)
+		ctx.AddStates(1)
+		ctx.AddTransitions(1)
+		ctx.AddTraces(1)
+		fail := func(clause, detail string) {
+			ctx.Violation(report.Violation{Clause: clause, Witness: desc, Detail: detail + fmt.Sprintf(" -- script %q", src), Choices: c.Choices(), Part: "I6-reader-behaviour"})
+		}
+		switch {
+		case pan != "":
+			fail("load-panic", "NewDialogueRunner panicked: "+pan)
+		case kind >= 4 && err == nil:
+			fail("read-error-ignored", "a reader failed, yet a runner was returned (built from the part of the input that had been read)")
+		case kind < 4:
+			_, plainErr, _ := yc.NewReal([]string{src}, "abc", nil)
+			if (plainErr == nil) != (err == nil) {
+				fail("delivery-changes-answer", fmt.Sprintf("read from a plain reader the answer is error=%v, with this delivery it is error=%v (%v)", plainErr != nil, err != nil, err))
+			} else if r != nil && !strings.Contains(src, "jump") {
+				plain, _, _ := yc.NewReal([]string{src}, "abc", nil)
+				a, b := r.Next(0), plain.Next(0)
+				if a.String() != b.String() {
+					fail("delivery-changes-answer", fmt.Sprintf("first element %s, read from a plain reader %s", a.String(), b.String()))
+				}
+			}
+		}
 	})
 
 	// I4: seeds
